@@ -70,19 +70,31 @@ def run(tape, ctx: Ctx) -> None:
         k = tape.draw(n_jobs, "failing-job")
         failing.add(f"projects/{PROJECT}/programs/{jobs[k][0]}/jobs/{jobs[k][1]}")
         ctx.fault_configured("job-fails")
-    ctx.decide("cfg", n_jobs, n_programs, transport, fault_budget, sorted(kinds), timeout_s, max_retry, len(failing))
+    streaming = not tape.chance(1, 3, "no-streaming?")
+    if not streaming:
+        ctx.probe("l2:unary-only-mode")
+    cancel_job_k = tape.draw(n_jobs, "cancel-which") if tape.chance(1, 4, "user-cancels-a-job?") else None
+    cancel_delay = [0.0, 0.5, 2.0, 7.0][tape.draw(4, "cancel-delay")]
+    if cancel_job_k is not None:
+        ctx.fault_configured("cancel")
+    ctx.decide("cfg", n_jobs, n_programs, transport, fault_budget, sorted(kinds), timeout_s, max_retry, len(failing),
+               cancel_job_k, cancel_delay, streaming)
 
     sim = Sim(tape, ctx, max_steps=6000 + 1500 * n_jobs)
     t_start = sim.now
     circuit = cirq.Circuit(cirq.X(Q), cirq.measure(*QS, key="m"))
     outcomes = {}
+    cancelled = {}
+    loop_busy = {}
+    fair_since = {"t": None}
 
     with simloop.installed(sim) as loop:
         server = ModelQuantumEngine(sim, ctx, transport, fault_budget, kinds, failing, ())
         server.result_factory = lambda name: _result_any(name, reps)
+        server.connect_stalls = tape.chance(1, 4, "connect-stalls?")
         client = engine_client.EngineClient(verbose=False, max_retry_delay_seconds=max_retry)
         client.__dict__["grpc_client"] = server.client          # cached_property slot
-        context = cg.engine.engine.EngineContext(client=client, timeout=timeout_s, enable_streaming=True)
+        context = cg.engine.engine.EngineContext(client=client, timeout=timeout_s, enable_streaming=streaming)
         engine = cg.Engine(project_id=PROJECT, context=context)
         manager = client._stream_manager
 
@@ -99,6 +111,7 @@ def run(tape, ctx: Ctx) -> None:
             if not sim.fair and (sim.steps >= stop_faults_at or
                                  (server.fault_budget <= 0 and server.unary_fault_budget <= 0)):
                 sim.fair = True
+                fair_since["t"] = sim.now
                 ctx.probe("l2:fair-phase")
             ctx.state(("l2", len(server.streams) % 3, min(len(server.unary_pending), 3),
                        tuple(sorted(j.state[0] for j in server.jobs.values()))[:5]))
@@ -112,18 +125,32 @@ def run(tape, ctx: Ctx) -> None:
                                                    params=None, repetitions=reps, processor_id="proc")
                 started["n"] += 1
                 results = await job.results_async()
-                outcomes[k] = ("ok", results)
+                outcomes[k] = ("ok", results, sim.now)
             except Violation:
                 raise
             except (SimHang, StepCapExceeded):
                 raise
             except Exception as e:  # noqa: BLE001 - classified by the oracle below
-                outcomes[k] = ("error", e)
+                outcomes[k] = ("error", e, sim.now)
+                loop_busy[k] = loop.has_ready()     # replies still travelling between the two "threads"?
+
+        async def cancel_later(k: int):
+            # the user cancels one of their jobs through the public client call, some time after submitting
+            prog_id, job_id = jobs[k]
+            await duet.sleep(cancel_delay + 0.001)
+            try:
+                ctx.fault("cancel")
+                await client.cancel_job_async(PROJECT, prog_id, job_id)
+                cancelled["rpc_done"] = True
+            except Exception as e:  # noqa: BLE001 - e.g. NOT_FOUND when the job does not exist yet
+                cancelled["error"] = e
 
         async def main():
             async with duet.new_scope() as scope:
                 for k in range(n_jobs):
                     scope.spawn(one_job, k)
+                if cancel_job_k is not None:
+                    scope.spawn(cancel_later, cancel_job_k)
 
         with simduet.installed(sim):
             try:
@@ -141,7 +168,8 @@ def run(tape, ctx: Ctx) -> None:
                                              f"{sorted(outcomes)}; unary log tail {server.unary_log[-8:]}",
                                 fingerprint=_l2_hang_fp(loop, manager, transport))
         elapsed = sim.now - t_start
-        _oracle(ctx, server, jobs, failing, outcomes, n_jobs, reps, elapsed, timeout_s, max_retry)
+        _oracle(ctx, server, jobs, failing, outcomes, n_jobs, reps, elapsed, timeout_s, max_retry, cancel_job_k,
+                t_start, loop_busy, fair_since["t"])
         ctx.sim_time += 0.0
         ctx.nontrivial = n_jobs >= 2
         if elapsed > 60:
@@ -166,7 +194,8 @@ def _l2_hang_fp(loop, manager, transport) -> str:
     return f"{P}-HANG:L2:{transport}"
 
 
-def _oracle(ctx, server, jobs, failing, outcomes, n_jobs, reps, elapsed, timeout_s, max_retry) -> None:
+def _oracle(ctx, server, jobs, failing, outcomes, n_jobs, reps, elapsed, timeout_s, max_retry, cancel_job_k=None,
+            t_start=0.0, loop_busy=None, fair_since=None) -> None:
     injected_breaks = {id(exc): kind for (_e, exc, kind, _u) in server.breaks}
     injected_unary = {id(e) for e in server.injected_unary}
     nonretry_unary = [e for e in server.injected_unary if getattr(e, "code", 500) not in (500, 503)]
@@ -175,7 +204,8 @@ def _oracle(ctx, server, jobs, failing, outcomes, n_jobs, reps, elapsed, timeout
         jname = f"projects/{PROJECT}/programs/{prog_id}/jobs/{job_id}"
         if k not in outcomes:
             raise Violation(f"{P}-L2-LOST", f"{job_id}: neither a result nor an error reached the caller")
-        kind, val = outcomes[k]
+        kind, val, t_out = outcomes[k]
+        sjob0 = server.jobs.get(jname)
         if kind == "ok":
             if jname in failing:
                 raise Violation(f"{P}-L2-WRONG-RESULT", f"{job_id} failed on the server but results came back")
@@ -209,13 +239,33 @@ def _oracle(ctx, server, jobs, failing, outcomes, n_jobs, reps, elapsed, timeout
             # NOT_FOUND after the one allowed re-creation also failed to stick is only legitimate when a
             # non-retryable fault interfered; with none injected it is a lost job
             ok, why = bool(nonretry_unary or any(kd != "break-retryable" for kd in injected_breaks.values())), "404"
-        elif isinstance(e, TimeoutError):
-            # context.timeout elapsed on the virtual clock, or back-off exceeded max_retry_delay_seconds
-            if elapsed + 1e-6 >= min(timeout_s, 0.1) and (elapsed >= timeout_s or
-                                                            (server.injected_unary and max_retry <= 10)):
+        elif (isinstance(e, RuntimeError) and k == cancel_job_k and sjob0 is not None and sjob0.state == "CANCELLED"
+              and "CANCELLED" in str(e)):
+            ok, why = True, "job-cancelled"
+        elif isinstance(e, TimeoutError) or (isinstance(e, RuntimeError) and "Timed out waiting" in str(e)):
+            # context.timeout really elapsed on the virtual clock while the job was not (or only just) terminal
+            # on the server, or the back-off of injected unary failures exceeded max_retry_delay_seconds
+            waited = t_out - t_start
+            polls = [v for v in server.unary_times.values() if v[0] == "get_quantum_job" and v[1] == job_id]
+            done_polls = [v for v in polls if v[3] is not None and v[4] == "ok"]
+            pending_poll = any(v[3] is None for v in polls)
+            if server.injected_unary and (max_retry <= 10 or waited >= timeout_s):
                 ok, why = True, "timeout"
-        elif isinstance(e, RuntimeError) and "Timed out waiting for results" in str(e):
-            ok, why = elapsed >= timeout_s, "timeout"
+            elif waited + 1e-6 >= timeout_s:
+                # the polling loop asks once a second until the job is terminal; a caller that times out must
+                # have had a poll outstanding, or have completed one within the last poll interval
+                last_done = max((v[3] for v in done_polls), default=None)
+                # (only judged in the fair phase: while faults flow the scheduler may starve the asyncio side
+                # or jump the clock past a deadline with replies still in flight)
+                if (polls and not pending_poll and last_done is not None and t_out - last_done > 3.0
+                        and fair_since is not None and last_done >= fair_since
+                        and not (loop_busy or {}).get(k, False)):
+                    raise Violation(f"{P}-L2-STOPPED-POLLING",
+                                    f"{job_id}: the caller timed out at +{t_out - t_start:.1f}s but its last "
+                                    f"get_quantum_job completed at +{last_done - t_start:.1f}s and none was "
+                                    f"outstanding: it stopped polling {t_out - last_done:.1f}s before giving up "
+                                    f"(server job state {sjob0.state if sjob0 else None})")
+                ok, why = True, "timeout"
         if not ok:
             cls = f"{P}-L2-UNJUSTIFIED-ERROR"
             if id(e) in injected_breaks or isinstance(e, sm.StreamError) or id(e) in injected_unary:
@@ -226,6 +276,8 @@ def _oracle(ctx, server, jobs, failing, outcomes, n_jobs, reps, elapsed, timeout
                                  f"{[type(x).__name__ for x in server.injected_unary]}, unary log tail "
                                  f"{server.unary_log[-6:]})")
         ctx.probe("l2:error:" + why)
+        if why == "job-cancelled":
+            ctx.probe("l2:cancelled-job-surfaces")
     for name, job in server.jobs.items():
         if job.executions > 1:
             raise Violation(f"{P}-RAN-TWICE", f"{name} was created {job.executions} times")
